@@ -167,6 +167,7 @@ func cmdRun(args []string) {
 	bbox := fs.String("blackbox", "", "shared file receiving the input of the operation in flight")
 	stall := fs.Duration("stall", 0, "end the process when a run makes no progress for this long")
 	allRecs := fs.Bool("all-records", false, "emit a (short) record for every run: determinism self-test")
+	until := fs.Int64("until", 0, "stop before a run that would start after this unix time in ns (wall budget of the batch)")
 	fs.Parse(args)
 	p := getProp(*prop)
 	if *bbox != "" {
@@ -193,6 +194,14 @@ func cmdRun(args []string) {
 		defer hw.Flush()
 	}
 	for k := *from; k < *to; k += *stride {
+		if *until > 0 && time.Now().UnixNano() > *until {
+			// the batch's wall budget is used up: stop cleanly so that what ran is accounted for
+			if sum.Extra == nil {
+				sum.Extra = map[string]any{}
+			}
+			sum.Extra["stopped_at_deadline"] = true
+			break
+		}
 		fmt.Fprintf(out, "B %d\n", k)
 		out.Flush()
 		simrt.Progress.Add(1)
@@ -288,9 +297,10 @@ func cmdPlan(args []string) {
 		}
 		sum := core.Summary{}
 		e := &core.EnumCtx{Tier: plan.Tier, Shards: 1, Steps: &simrt.Steps, OnlyCase: plan.Case, Sum: &sum,
-			Emit:   func(r *core.Record) { *rec = *r },
-			Begin:  func(string) {},
-			Hashes: func(uint64, bool) {},
+			Emit:    func(r *core.Record) { *rec = *r },
+			Begin:   func(string) {},
+			Hashes:  func(uint64, bool) {},
+			Expired: func() bool { return false },
 		}
 		p.Enum(e)
 		emitJSON(rec)
@@ -335,6 +345,7 @@ func cmdEnum(args []string) {
 	hashOut := fs.String("hashes", "", "file receiving the distinct-case hashes")
 	bbox := fs.String("blackbox", "", "shared file receiving the input of the operation in flight")
 	stall := fs.Duration("stall", 0, "end the process when a group makes no progress for this long")
+	until := fs.Int64("until", 0, "stop enumerating after this unix time in ns")
 	fs.Parse(args)
 	p := getProp(*prop)
 	if *bbox != "" {
@@ -364,7 +375,17 @@ func cmdEnum(args []string) {
 		hw = bufio.NewWriterSize(f, 1<<16)
 		defer hw.Flush()
 	}
+	expired := false
 	e := &core.EnumCtx{Tier: *tier, Shard: *shard, Shards: *shards, Steps: &simrt.Steps, Sum: &sum,
+		Expired: func() bool {
+			if expired {
+				return true
+			}
+			if *until > 0 && time.Now().UnixNano() > *until {
+				expired = true
+			}
+			return expired
+		},
 		Emit: func(r *core.Record) { emitJSON(r) },
 		Begin: func(g string) {
 			fmt.Fprintf(out, "G %s\n", g)
@@ -384,6 +405,12 @@ func cmdEnum(args []string) {
 		},
 	}
 	p.Enum(e)
+	if expired {
+		if sum.Extra == nil {
+			sum.Extra = map[string]any{}
+		}
+		sum.Extra["stopped_at_deadline"] = true
+	}
 	sum.Steps = simrt.Steps
 	for i, h := range simrt.SiteHits {
 		if h {
